@@ -882,7 +882,7 @@ func c12Check(b c12Batch) []vlib.Violation {
 func c12GenConfig(f smodel.Format) smodel.GenConfig {
 	cfg := smodel.DefaultGenConfig(f)
 	cfg.ConstraintBias = true
-	cfg.Focus = []string{"string_bounded", "int_bounded", "float_bounded", "enum_ref", "enum_anon", "const_string", "default_string", "default_int", "default_bool", "default_float", "default_list", "nullable_scalar", "nullable_ref", "map_ref", "union_structs", "union_scalars", "ref"}
+	cfg.Focus = []string{"string_bounded", "int_bounded", "float_bounded", "enum_ref", "enum_anon", "const_string", "default_string", "default_int", "default_bool", "default_float", "default_list", "nullable_scalar", "nullable_ref", "map_ref", "union_structs", "union_scalars", "ref", "nullable_collection"}
 	return cfg
 }
 
